@@ -161,3 +161,21 @@ pub struct W7;
 /// let _ = cap::<rarena_allocator::unsync::Arena>;
 /// ```
 pub struct W8;
+
+/// W9 (C12: the arena's own `unsafe impl`s must not create races) - an owned typed handle crosses threads only if its value may.
+/// ```compile_fail,E0277
+/// fn need_send<T: Send>() {}
+/// need_send::<rarena_allocator::Owned<std::rc::Rc<u8>, rarena_allocator::sync::Arena>>();
+/// ```
+/// ```compile_fail,E0277
+/// fn need_sync<T: Sync>() {}
+/// need_sync::<rarena_allocator::Owned<core::cell::Cell<u8>, rarena_allocator::sync::Arena>>();
+/// ```
+/// twin:
+/// ```no_run
+/// fn need_send<T: Send>() {}
+/// fn need_sync<T: Sync>() {}
+/// need_send::<rarena_allocator::Owned<u64, rarena_allocator::sync::Arena>>();
+/// need_sync::<rarena_allocator::Owned<u64, rarena_allocator::sync::Arena>>();
+/// ```
+pub struct W9;
